@@ -1063,3 +1063,200 @@ func findSubtermByKey(f *ssa.Function, c *Ctx, key string) *Term {
 	}
 	return found
 }
+
+// c18SizeBound (D3): a size function may answer with a literal — a shortcut for small values — only where the word the
+// encoder transports is provably short enough: answering n (< 9) on a path requires, from the path's own conditions,
+// that every bit of that word from position 7n upwards is 0. (The table-driven answers are built from the encoder
+// itself and need no such argument.) Signed range tests −2^k ≤ v < 2^k are the linear constraints v[j] = v[63], j ≥ k.
+func c18SizeBound(c *Ctx) {
+	const rule = "C18-D3"
+	for _, pr := range [][2]string{{"Uvarint64Size", "EncodeUvarint64"}, {"Varint64Size", "EncodeVarint64"}} {
+		sz, enc := c.P.Func(pkgEnc, pr[0]), c.P.Func(pkgEnc, pr[1])
+		if sz == nil || enc == nil {
+			continue
+		}
+		// the word: the argument the encoder hands to the base encoder (or its own parameter)
+		var word *Term
+		eps, _, _ := pathsOfAll(c.P, enc, nil, execOpts{MaxVisits: 12, Pure: c.Mod.PureCall, InlineCallee: inlineNewHelpers})
+		for _, p := range eps {
+			for _, e := range p.Effects {
+				if e.Kind == "call" && !e.Pure && e.Call.Op == "call" && strings.HasSuffix(e.Call.Sym, ".EncodeUvarint64") && len(e.Call.Args) == 2 {
+					word = e.Call.Args[1]
+				}
+			}
+		}
+		if word == nil {
+			word = mk("param", "1", nil)
+			if len(enc.Params) > 1 {
+				word.V = enc.Params[1]
+			}
+		}
+		paths, _, _ := pathsOfAll(c.P, sz, nil, execOpts{MaxVisits: 4, Pure: c.Mod.PureCall, InlineCallee: inlineNewHelpers})
+		bad := ""
+		nLit, nSkipped := 0, 0
+		for _, p := range paths {
+			if len(p.RetT) != 1 || p.RetT[0].unver().Op != "const" {
+				continue
+			}
+			n64, ok := parseConst(p.RetT[0].unver().Sym)
+			if !ok {
+				continue
+			}
+			n := int(n64)
+			nLit++
+			env := newBenv()
+			// the size function's parameter is index 0, the encoder's value parameter index 1: bind both names to one root
+			root := env.root("param:1")
+			env.bind["param:0"] = root
+			understood, feasible := true, true
+			type rng struct {
+				lo, hi   int64
+				hasLo    bool
+				hasHi    bool
+				lastTerm *Term
+			}
+			signed := map[string]*rng{}
+			for _, cd := range p.Conds {
+				t := cd.Term.unver()
+				// signed range tests on the parameter
+				if t.Op == "bin" && len(t.Args) == 2 && (t.Sym == "<" || t.Sym == "<=") {
+					x, y := t.Args[0].unver(), t.Args[1].unver()
+					var X *Term
+					var cst int64
+					var isLower bool // true: cst ≤/< X ; false: X </≤ cst
+					if x.Op == "const" && signedTerm(y) {
+						if v, ok := parseConst(x.Sym); ok {
+							X, cst, isLower = y, int64(v), true
+						}
+					} else if y.Op == "const" && signedTerm(x) {
+						if v, ok := parseConst(y.Sym); ok {
+							X, cst, isLower = x, int64(v), false
+						}
+					}
+					if X != nil {
+						r := signed[X.Key()]
+						if r == nil {
+							r = &rng{lastTerm: X}
+							signed[X.Key()] = r
+						}
+						strict := t.Sym == "<"
+						switch {
+						case isLower && cd.Taken: // cst ≤ X or cst < X
+							lo := cst
+							if strict {
+								lo++
+							}
+							r.lo, r.hasLo = lo, true
+						case !isLower && cd.Taken: // X < cst or X ≤ cst  → X < hi
+							hi := cst
+							if !strict {
+								hi++
+							}
+							r.hi, r.hasHi = hi, true
+						case isLower && !cd.Taken: // !(cst ≤ X) → X < cst ; !(cst < X) → X < cst+1
+							hi := cst
+							if strict {
+								hi++
+							}
+							if !r.hasHi {
+								r.hi, r.hasHi = hi, true
+							}
+						default: // !(X < cst) → X ≥ cst
+							lo := cst
+							if !strict {
+								lo++
+							}
+							if !r.hasLo {
+								r.lo, r.hasLo = lo, true
+							}
+						}
+						continue
+					}
+				}
+				switch env.assume(cd.Term, cd.Taken) {
+				case 0:
+					feasible = false
+				case -1:
+					understood = false
+				}
+			}
+			if !feasible {
+				continue
+			}
+			for _, r := range signed {
+				if !(r.hasLo && r.hasHi) || r.lo >= 0 && false {
+					understood = false
+					continue
+				}
+				// −2^a ≤ X < 2^b  ⇒  bits from max(a, b) up all equal the sign bit; 0 ≤ X < 2^b ⇒ those bits are 0
+				pow := func(v int64) (int, bool) {
+					if v <= 0 || v&(v-1) != 0 {
+						return 0, false
+					}
+					k := 0
+					for v>>uint(k) != 1 {
+						k++
+					}
+					return k, true
+				}
+				kb, okb := pow(r.hi)
+				bv := env.eval(r.lastTerm)
+				switch {
+				case okb && r.lo >= 0:
+					for j := kb; j < 64; j++ {
+						if f, u := env.constrain(bv[j], false); !u {
+							understood = false
+						} else if !f {
+							feasible = false
+						}
+					}
+				case okb && r.lo < 0:
+					ka, oka := pow(-r.lo)
+					if !oka {
+						understood = false
+						break
+					}
+					k := ka
+					if kb > k {
+						k = kb
+					}
+					for j := k; j < 63; j++ {
+						if f, u := env.constrain(xorForms(env.norm(bv[j]), env.norm(bv[63])), false); !u {
+							understood = false
+						} else if !f {
+							feasible = false
+						}
+					}
+				default:
+					understood = false
+				}
+			}
+			if !feasible {
+				continue
+			}
+			if !understood {
+				nSkipped++
+				continue
+			}
+			if n < 1 || n > 8 {
+				continue // 9 is the maximum: nothing to bound
+			}
+			w := env.eval(rewriteTerm(word, func(x *Term) *Term { return nil }))
+			for j := 7 * n; j < 64; j++ {
+				f := env.norm(w[j])
+				if f.top {
+					nSkipped++
+					break
+				}
+				if !(f.isConst() && !f.c) {
+					bad = firstNonEmpty(bad, fmt.Sprintf("%s answers %d on a path whose conditions leave bit %d of the transported word open (%s): the encoder may write more than %d byte(s) [%s]", pr[0], n, j, env.describe(f), n, pathSig(p)))
+					break
+				}
+			}
+		}
+		if nLit == 0 {
+			continue // table-driven only: C18-D3 every-path-from-the-word
+		}
+		c.R.check(bad == "", rule, pr[0]+"/literal-answers-bounded", shortFn(sz), c.fpos(sz), "a literal size n is answered only where the path's conditions force the transported word below 2^(7n)", firstNonEmpty(bad, fmt.Sprintf("%d literal answer(s), %d outside the bit domain", nLit, nSkipped)))
+	}
+}
